@@ -223,3 +223,80 @@ def run_basiscard(prog, E=None, prefix="mpq_", rule="R-BASISCARD", floor=3):
     res.counts["basis_loaders"] = n
     res.floor("public functions that install external status arrays", n, floor)
     return res
+
+
+def run_basissense(prog, E=None, prefix="mpq_", rule="R-RSTATLOAD", floor=3):
+    """sibling agreement of the basis loaders, second part: the status 'at upper' of a row exists for ranged rows only (ILLbasis_load
+    refuses it for an L, G or E row and every later solve fails).  A row-status validator is found structurally: a function with a
+    rejecting condition that reads both an element of a char array parameter / record (the statuses) and an element of
+    ILLlpdata::sense.  Every loader (as in R-BASISCARD: a public function that empties p->basis and refills it from a status array,
+    a QSbasis record or a file) calls such a validator on a position that dominates every fill of p->basis."""
+    from ..core import walk, strip, is_var, callee, const_of, show, dominators, apath, fields_of
+    E = E or Effects(prog)
+    res = RuleResult(rule, "every public function that installs external row statuses into p->basis calls a validator that looks at the row senses "
+                           "before it fills the basis")
+    funcs = [f for f in prog.funcs.values() if f.live is not None and f.unit.endswith("qsopt_mpq.c")]
+    validators = set()
+    for f in funcs:
+        for bid in f.live:
+            c = f.blocks[bid].get("c")
+            if c is None:
+                continue
+        reads_sense = reads_stat = False
+        for bid in f.live:
+            c = f.blocks[bid].get("c")
+            if c is None:
+                continue
+            for nd in walk(c):
+                if isinstance(nd, list) and nd and nd[0] == "i":
+                    fl = fields_of(apath(nd[1])[2])
+                    if fl and fl[-1].endswith("ILLlpdata::sense"):
+                        reads_sense = True
+                    b0 = strip(nd[1])
+                    if is_var(b0) and isinstance(b0[1], str) and b0[1].startswith("p") and "char" in (f.var_type(b0) or ""):
+                        reads_stat = True
+                    if fl and fl[-1].endswith(("::rstat",)):
+                        reads_stat = True
+        if reads_sense and reads_stat and any(e[0] == "A" and is_var(e[1][2], kind="l") and "rval" in strip(e[1][2])[2] and const_of(e[1][3]) not in (None, 0)
+                                             for b, i, e in f.elements()):
+            validators.add(f.key)
+    res.counts["row_status_validators"] = sorted(prog.funcs[k].name for k in validators)
+    n = 0
+    for f, pidx in api_functions(prog, prefix):
+        if f.live is None:
+            continue
+        w = {fp[1].split("::")[1] for (k, fp) in E.W[f.key] if k == pidx and len(fp) >= 2 and fp[0].endswith("qsdata::basis")
+             and fp[1].split("::")[0].endswith("ILLlp_basis") and fp[1].split("::")[1] in ("rstat",)}
+        ext = [p_[0] for k, p_ in enumerate(f.params) if k != pidx and p_[2].replace("const ", "").strip() in ("char *", "struct qsbasis *")]
+        if not w or not ext:
+            continue
+        if not any((callee(c) or "").endswith("ILLlp_basis_free") and c[3] and show(c[3][0]) == "%s->basis" % f.params[pidx][0] for b, i, c in f.calls()):
+            continue
+        n += 1
+        res.obligations += 1
+        res.nontrivial += 1
+        dom, succ = dominators(prog, f)
+        fills = []
+        for ci in E.callinfo.get(f.key, ()):
+            (g, name, loc, args, bid, idx, c) = ci
+            if g is None or (name or "").endswith(("ILLlp_basis_free", "ILLlp_basis_init")):
+                continue
+            if any(j == pidx and len(fp) >= 2 and fp[0].endswith("qsdata::basis") and fp[1].split("::")[1] == "rstat" for (j, fp) in E.call_writes(f, ci)):
+                fills.append((bid, idx, loc, name))
+        for (j, fp, loc, how, bid, idx) in E.direct_writes(f):
+            if j == pidx and fp and fp[0].endswith("qsdata::basis") and (len(fp) == 1 or fp[1].split("::")[1] == "rstat"):
+                e = f.blocks[bid]["e"][idx]
+                if e[0] == "A" and const_of(e[1][3]) is None:
+                    fills.append((bid, idx, loc, "store"))
+        chk = [(b["id"], i) for b, i, c in f.calls() if (lambda g: g is not None and g.key in validators)(prog.resolve(f, c[1]) if c[1] else None)]
+        bad = [x for x in fills if not any((cb in dom.get(x[0], ()) and cb != x[0]) or (cb == x[0] and ci_ < x[1]) for (cb, ci_) in chk)]
+        if bad:
+            res.violations.append(Violation(rule, "%s|row statuses installed without a look at the senses" % base(f.name), f.name, short_loc(bad[0][2]),
+                                            "%s fills the row statuses of p->basis from %s (%s) and no validator that reads the row senses (%s) dominates that: "
+                                            "'at upper' on a row that is not ranged is accepted, and ILLbasis_load refuses the basis at every later solve" % (
+                                                f.name, ", ".join(ext), bad[0][3], ", ".join(res.counts["row_status_validators"]) or "none found")))
+        else:
+            res.sample({"function": f.name, "verdict": "a sense-aware validator dominates every fill"}, limit=6)
+    res.counts["basis_loaders"] = n
+    res.floor("public functions that install external row statuses", n, floor)
+    return res
